@@ -775,6 +775,7 @@ type c20MiscStats struct {
 	rlExecuted, rlDrift                 int
 	skExecuted, skDrift                 int
 	ofsExecuted, ofsMustAdmit, ofsDrift int
+	driftSample                         []string
 	pipelines                           int
 	viols                               []*c20SizeViol
 }
@@ -1172,6 +1173,10 @@ func c20RunOfsGroup(id int, cases []*c20OfsCase, st *c20MiscStats) {
 			}
 			if refused != (c.Mret == 0) {
 				st.ofsDrift++
+				if len(st.driftSample) < 5 {
+					b, _ := json.Marshal(c)
+					st.driftSample = append(st.driftSample, fmt.Sprintf("offsets: In refused=%v, model ret=%d; case %s", refused, c.Mret, b))
+				}
 			}
 			st.mu.Unlock()
 			if refused && !c.MayRefuse {
@@ -1424,7 +1429,7 @@ func TestVerifC20(t *testing.T) {
 		"misc": map[string]interface{}{"cri_executed": mst.criExecuted, "cri_delivered": mst.criDelivered, "xlist_executed": mst.xlExecuted,
 			"xlist_exempt": mst.xlExempt, "xlist_drift": mst.xlDrift, "rlist_in_calls": mst.rlExecuted, "rlist_drift": mst.rlDrift,
 			"skey_in_calls": mst.skExecuted, "skey_drift": mst.skDrift,
-			"offsets_in_calls": mst.ofsExecuted, "offsets_must_admit": mst.ofsMustAdmit, "offsets_drift": mst.ofsDrift, "pipelines": mst.pipelines, "violations": mst.viols},
+			"offsets_in_calls": mst.ofsExecuted, "offsets_must_admit": mst.ofsMustAdmit, "offsets_drift": mst.ofsDrift, "drift_samples": mst.driftSample, "pipelines": mst.pipelines, "violations": mst.viols},
 		"sched": map[string]interface{}{"executed": cst.executed, "steps": cst.steps, "pipelines": cst.groups, "banned_in_first_burst": cst.sawBan,
 			"banned_then_admitted": cst.bannedThenAdmit, "interval_ms": c20SchedInterval.Milliseconds(), "violations": cv, "violation_counts": cst.counts},
 		"size": map[string]interface{}{"executed": sst.executed, "delivered": sst.delivered, "refused": sst.refused,
